@@ -273,6 +273,25 @@ Proof.
     split; [intros _; exists p, f; auto|reflexivity].
 Qed.
 
+(** C12 (width): every buffer offset the parser reports is at most the length of the input *)
+Lemma c12_offsets_fit memo inline n r st0 rr :
+  slot_ok inline r -> peg_parse g ptx buf penv n r = Some rr ->
+  exists b st', machine memo inline n r st0 = Some (Ret b st') /\
+    (b = true -> pos st' <= length buf /\ Forall (inb 0 (length buf)) (live st')) /\
+    (b = false -> tok_ok (length buf) (maxtok st')).
+Proof.
+  destruct rr as [[|p f] evs]; intros Hslot H.
+  - destruct (c11_error_token memo inline n r st0 evs Hslot H) as (st' & R & _ & T).
+    exists false, st'. split; [exact R|]. split; [discriminate|intros _; exact T].
+  - destruct (c03_tokens memo inline n r st0 p f evs Hslot H) as (st' & kids & R & L & Hf & L2 & F).
+    pose proof (c01_verdict_prefix memo inline n r st0 _ Hslot H) as V. cbn [fst] in V. destruct V as (st2 & R2 & P2).
+    rewrite R in R2. inv R2.
+    exists true, st2. split; [exact R|]. split; [|discriminate]. intros _. split; [|exact F].
+    rewrite Forall_forall in F. rewrite L2 in F.
+    assert (Hin : In (r, (0, pos st2)) (flat kids ++ [(r, (0, pos st2))])) by (apply in_or_app; right; left; reflexivity).
+    specialize (F _ Hin). unfold inb in F. cbn [tk_begin tk_end fst snd] in F. lia.
+Qed.
+
 (** C02 (inline part, and the machine side of -switch): the same grammar term run with or without
     -inline gives the same verdict, prefix and tokens (both equal the semantics). For -switch the
     term is the optimised tree: the theorem then says that the skip-check flags and the switch
